@@ -4,14 +4,18 @@ RULE = ("cases = corpus + seeded conformant streams (independent encoder) decode
         "interrupted reads, odd and huge chunk sizes, cycled), truncated at / next to every kind of field boundary and at "
         "random positions (generated stream and the crate's own serialisation), and serialised into sinks that accept K "
         "bytes in scheduled chunks and then fail with Err or Ok(0); non-trivial = stream with a run cookie, or a bitset "
-        "chunk, or >= 2 chunks; distinct by SHA-1 of the ops. Exhaustive truncation/failure sweeps belong to the thorough tier.")
+        "chunk, or >= 2 chunks; distinct by SHA-1 of the ops. Exhaustive truncation/failure sweeps belong to the thorough tier. "
+        "64-bit half (profile C14T): small conformant portable streams through the same scheduled readers, EVERY truncation "
+        "point of streams <= 100 bytes (sampled cut points at/next to outer and inner field boundaries otherwise), every "
+        "prefix of the own serialisation and a failing writer at EVERY byte position when it is <= 100 bytes")
 
 CFG = {
-    "gen_profiles": ["C14"],
-    "cases": {"quick": 500, "thorough": 5000},
+    "gen_profiles": ["C14", "C14T"],
+    "cases": {"quick": 1000, "thorough": 10000},
     "compare": "set",
     "rule": RULE,
-    "nontrivial": lambda body, mout: any("hex:3b30" in op[:60] for op in body) or any((" nc=" in o and " nc=0 " not in o and " nc=1 " not in o) for o in mout),
+    "nontrivial": lambda body, mout: any("hex:3b30" in op[:60] for op in body) or any((" nc=" in o and " nc=0 " not in o and " nc=1 " not in o) for o in mout)
+                  or any(op.startswith("note parts=") and ("cookie=run" in op or not op.startswith(("note parts=0", "note parts=1"))) for op in body),
     "targets": {
         "one byte per read": r"^deser_sched \w+ b\d+ sched:1 .* => ok",
         "interrupted reads": r"^deser_sched \w+ b\d+ sched:[0-9,]*i.* => ok",
@@ -25,12 +29,25 @@ CFG = {
         "writer large enough": r"^ser_fail .* => ok n=",
         "writer limit 0": r"^ser_fail b\d+ limit:0 .* => err n=0 ",
         "writer interrupted": r"^ser_fail b\d+ limit:\d+ mode:\w+ sched:[0-9,]*i",
+        "64-bit: one byte per read": r"^tdeser_sched \w+ t\d+ sched:1 .* => ok",
+        "64-bit: interrupted reads": r"^tdeser_sched \w+ t\d+ sched:[0-9,]*i.* => ok",
+        "64-bit: scheduled read of a truncated stream fails": r"^tdeser_sched chk t2 .* => err",
+        "64-bit: strict prefix of a generated stream is an error": r"^tdeser_trunc \w+ t\d+ \d+ .* => err",
+        "64-bit: whole generated stream (or longer) decodes": r"^tdeser_trunc \w+ t\d+ \d+ .* => ok",
+        "64-bit: strict prefix of the crate's own bytes is an error": r"^tdeser_prefix \w+ t\d+ t\d+ \d+ => err",
+        "64-bit: whole own serialisation decodes": r"^tdeser_prefix \w+ t\d+ t\d+ \d+ => ok rest=0 eq=true",
+        "64-bit: cut inside the u64 count": r"^tdeser_(trunc|prefix) \w+ t\d+ (t\d+ )?[1-7]( hex:\S+)? => err",
+        "64-bit: writer fails with Err": r"^tser_fail t\d+ limit:\d+ mode:err .* => err n=",
+        "64-bit: writer returns Ok(0)": r"^tser_fail t\d+ limit:\d+ mode:zero .* => err n=",
+        "64-bit: writer large enough": r"^tser_fail .* => ok n=",
+        "64-bit: writer fails inside the u64 count": r"^tser_fail t\d+ limit:[0-7] .* => err n=[0-7] ",
+        "64-bit: writer interrupted": r"^tser_fail t\d+ limit:\d+ mode:\w+ sched:[0-9,]*i",
     },
     "gaps": [
         "partial by nature: the theorems are about the decoder/encoder logic over read_exact / write_all as modelled in IO.lean (std loops quoted there); that std's loops behave as modelled is exercised by the correspondence only",
         'all six statements are proved in full: C14_readExact_sched, C14_decode_sched, C14_prefix (every stream that decodes completely), C14_prefix_serialize (every serialisation of a Bitmap.WF value), C14_prefix_rest, C14_write (+ C14_serializeFields_flatten)',
         'scheduled chunk size 0 is read as 1 in the model (the harness never generates 0)',
-        'the 64-bit half is handled by the treemap family',
+        '64-bit half: C14_t_decode_sched, C14_t_prefix, C14_t_prefix_serialize, C14_t_prefix_rest, C14_t_serializeFields_flatten, C14_t_write are proved in full (C14_t_prefix_serialize for every Treemap.WFd Bitmap.WF value; the treemap decoder is the same abstract-reader program; lifted through the bucket loop)',
     ],
     "level_text": "Lean 4 theorems: read_exact over any schedule of chunk sizes and interrupts equals read_exact over the plain "
                   "byte list, hence the decoder's result is schedule-independent; every strict prefix of a successfully "
